@@ -303,6 +303,7 @@ def check_frames(case):
         elif s in ('extend_frame', 'extend_frame_unaligned', 'extend_frame_dup', 'extend_frame_partial', 'extend_empty'):
             a, b = _values_for(n, dt, j), _values_for(n, 'float64', j + 1)
             labs = [lab, lab2]
+            ext_kw = {}
             if s == 'extend_empty':
                 other = sf.Frame(index=f.index)
                 new_labels, new_cols = [], []
@@ -331,11 +332,15 @@ def check_frames(case):
                     continue
                 a2, b2 = _values_for(len(keep), dt, j), _values_for(len(keep), 'float64', j + 1)
                 other = sf.Frame.from_items(zip(labs, [a2, b2]), index=[idx_labels[p] for p in keep])
-                ca, cb = [float('nan')] * n, [float('nan')] * n
+                # rows the other frame does not label take the fill value (the default NaN, or one given)
+                fv = -7 if j % 3 == 0 else float('nan')
+                ca, cb = [fv] * n, [fv] * n
                 for q, p in enumerate(keep):
                     ca[p], cb[p] = arr_list(a2)[q], arr_list(b2)[q]
                 new_labels, new_cols = labs, [ca, cb]
-            call = lambda: f.extend(other)
+                if j % 3 == 0:
+                    ext_kw = {'fill_value': -7}
+            call = lambda: f.extend(other, **ext_kw)
         elif s in ('extend_series', 'extend_series_dup'):
             a = _values_for(n, dt, j)
             if s == 'extend_series_dup':
